@@ -368,6 +368,10 @@ def draw_real(d):
         m = d.int(1, 2 ** 53 - 1) if d.pct(40) else d.int(1, 999)
         if d.pct(50):
             m = -m
+        if d.pct(20):
+            # towards the ends of the double range (the value stays within it; below 2^-1074 it rounds to zero or the smallest
+            # subnormal, which correct rounding decides)
+            return (m, 2, d.pick([-1100, -1080, -1074, -1073, -1060, -1022, -1000, -500, 500, 900, 960]))
         return (m, 2, d.int(-60, 60))
     if d.pct(d.cfg['real10_pct']):
         m = d.int(1, 2 ** 53 - 1) if d.pct(30) else d.int(1, 9999)
